@@ -71,7 +71,7 @@ _PREC = {'+': 1, '-': 1, '*': 2, '/': 2, 'neg': 3, '^': 4}
 
 def render(e, rnd: random.Random = None, style=None):
     """Render to PyRates equation syntax.  style: dict(space, pow, parens, cstyle)."""
-    st = dict(space=1, pow='^', parens=0, cstyle=0)
+    st = dict(space=1, pow='^', parens=0, cstyle=0, past='past')
     if style:
         st.update(style)
     sp = ' ' if st['space'] else ''
@@ -85,6 +85,8 @@ def render(e, rnd: random.Random = None, style=None):
         if k == 'call':
             return f"{x[1]}({(',' + sp).join(go(a) for a in x[2])})"
         if k == 'past':
+            if st['past'] == 'call':          # the x(t-tau) notation
+                return f"{x[1]}(t{sp}-{sp}{go(x[2], 2, True)})"
             return f"past({x[1]},{sp}{go(x[2])})"
         if k == 'neg':
             s = f"-{go(x[1], _PREC['neg'])}"
